@@ -475,7 +475,8 @@ type Expect struct {
 
 // own tiny reader of a DMARC record (RFC 7489 §6.3 tag list), independent of go-msgauth
 type pubRec struct {
-	valid      bool
+	valid      bool // v=DMARC1 and a valid p (and sp, when present)
+	outside    bool // a spelling the property does not speak about (unknown mode values, bad pct, odd version tag, tags without '=')
 	p, sp      string
 	adkimS     bool
 	aspfS      bool
@@ -492,10 +493,13 @@ func readRecord(txt string) pubRec {
 		}
 		kv := strings.SplitN(part, "=", 2)
 		if len(kv) != 2 {
-			r.valid = false
+			r.outside = true
 			continue
 		}
 		tags[strings.TrimSpace(kv[0])] = strings.TrimSpace(kv[1])
+	}
+	if tags["v"] != "DMARC1" {
+		r.outside = true
 	}
 	okPol := func(s string) bool { return s == "none" || s == "quarantine" || s == "reject" }
 	r.p = tags["p"]
@@ -511,7 +515,7 @@ func readRecord(txt string) pubRec {
 	for _, k := range []string{"adkim", "aspf"} {
 		if v, ok := tags[k]; ok {
 			if v != "r" && v != "s" {
-				r.valid = false
+				r.outside = true
 			}
 			if k == "adkim" {
 				r.adkimS = v == "s"
@@ -522,6 +526,9 @@ func readRecord(txt string) pubRec {
 	}
 	if v, ok := tags["pct"]; ok && v != "100" {
 		r.pctPartial = true
+		if n, err := strconv.Atoi(v); err != nil || n < 0 || n > 100 {
+			r.outside = true
+		}
 	}
 	return r
 }
@@ -529,12 +536,12 @@ func readRecord(txt string) pubRec {
 type pubAt int
 
 const (
-	atNothing pubAt = iota
-	atOne
-	atInvalid
-	atMultiple
-	atTemp
-	atFailed
+	atNothing  pubAt = iota // no DMARC record: no TXT, only other TXT strings, NXDOMAIN
+	atOne                   // exactly one, valid
+	atInvalid               // exactly one, without a valid p / with an invalid sp
+	atMultiple              // several DMARC records
+	atTemp                  // temporary DNS failure (SERVFAIL, timeout)
+	atOutside               // an outcome the property does not list (other lookup errors, odd record spellings)
 )
 
 func (c *Case) publishedAt(name string) (pubAt, pubRec) {
@@ -543,12 +550,12 @@ func (c *Case) publishedAt(name string) (pubAt, pubRec) {
 		return atNothing, pubRec{}
 	}
 	switch z.Kind {
-	case "nx", "nx2":
+	case "nx":
 		return atNothing, pubRec{}
 	case "temp", "temp2":
 		return atTemp, pubRec{}
-	case "other", "other2":
-		return atFailed, pubRec{}
+	case "other", "other2", "nx2":
+		return atOutside, pubRec{}
 	}
 	var recs []string
 	for _, t := range z.TXT {
@@ -563,6 +570,9 @@ func (c *Case) publishedAt(name string) (pubAt, pubRec) {
 		return atMultiple, pubRec{}
 	}
 	r := readRecord(recs[0])
+	if r.outside {
+		return atOutside, r
+	}
 	if !r.valid {
 		return atInvalid, r
 	}
@@ -585,9 +595,8 @@ func (c *Case) Expectation() Expect {
 	switch at {
 	case atTemp:
 		return Expect{CheckPass: true, CheckFate: true, Fate: "temp", Why: "temporary DNS failure at the author domain"}
-	case atFailed:
-		// lookup outcome outside the property's list: only "no pass" is certain
-		return Expect{CheckPass: true, Why: "permanent lookup failure (outside the property's outcomes)"}
+	case atOutside:
+		return Expect{Why: "lookup outcome outside the property's list"}
 	case atMultiple, atInvalid:
 		return Expect{CheckPass: true, CheckFate: true, Fate: accept, Why: "multiple/invalid records at the author domain: no policy"}
 	case atNothing:
@@ -596,8 +605,8 @@ func (c *Case) Expectation() Expect {
 		switch at2 {
 		case atTemp:
 			return Expect{CheckPass: true, CheckFate: true, Fate: "temp", Why: "temporary DNS failure at the organizational domain"}
-		case atFailed:
-			return Expect{CheckPass: true, Why: "permanent lookup failure (outside the property's outcomes)"}
+		case atOutside:
+			return Expect{Why: "lookup outcome outside the property's list"}
 		case atOne:
 			rec = rec2
 			sub = asciiLower(from) != org
